@@ -241,7 +241,7 @@ func normalise(repo string, pkgs []*packages.Package) (*normResult, []*packages.
 	res := &normResult{Overlay: map[string][]byte{}, Dead: map[string]bool{}}
 	skip := map[string]bool{}
 	cbase := baselineClosures()
-	if len(newHelpers(pkgs, base, skip)) == 0 && len(newClosureVars(pkgs, cbase, skip)) == 0 && len(newIIFEs(pkgs, cbase, skip)) == 0 {
+	if len(newHelpers(pkgs, base, skip)) == 0 && len(newClosureVars(pkgs, cbase, skip)) == 0 && len(newIIFEs(pkgs, cbase, skip)) == 0 && len(newEachLoops(pkgs, cbase, skip)) == 0 {
 		return res, pkgs, nil
 	}
 	var roundKeys []string
@@ -337,9 +337,120 @@ func normalise(repo string, pkgs []*packages.Package) (*normResult, []*packages.
 				continue
 			}
 		}
+		// explicit traversal loops over the aggregate maps are put back into the Each form
+		if els := newEachLoops(pkgs, cbase, skip); len(els) > 0 {
+			stepped := false
+			doneFile := map[string]bool{}
+			sort.Slice(els, func(i, j int) bool { return els[i].outer.Pos() > els[j].outer.Pos() })
+			for _, el := range els {
+				name := el.pkg.Fset.Position(el.file.Pos()).Filename
+				if doneFile[name] || skip["eachloop:"+el.encl] {
+					continue
+				}
+				content, err := fileContent(res.Overlay, name)
+				if err != nil {
+					return nil, nil, err
+				}
+				out, what, err := eachLoopStep(el, content)
+				if err != nil {
+					skip["eachloop:"+el.encl] = true
+					res.Log = append(res.Log, fmt.Sprintf("traversal loops in %s left alone: %v", el.encl, err))
+					continue
+				}
+				res.Overlay[name] = out
+				res.Log = append(res.Log, what)
+				doneFile[name] = true
+				stepped = true
+				roundKeys = append(roundKeys, "eachloop:"+el.encl)
+			}
+			if stepped {
+				var err error
+				pkgs, err = loadPkgs(repo, res.Overlay)
+				if err != nil {
+					if err2 := rollback(err); err2 != nil {
+						return nil, nil, fmt.Errorf("after traversal loop normalisation: %v", err2)
+					}
+				}
+				continue
+			}
+		}
 		helpers := newHelpers(pkgs, base, skip)
 		if len(helpers) == 0 {
 			break
+		}
+		// for statements calling a new helper in their init / post clause are written out
+		if fcs := forClauseHelperCalls(pkgs, helpers, skip); len(fcs) > 0 {
+			stepped := false
+			doneFile := map[string]bool{}
+			sort.Slice(fcs, func(i, j int) bool { return fcs[i].loop.Pos() > fcs[j].loop.Pos() })
+			for _, fc := range fcs {
+				name := fc.pkg.Fset.Position(fc.file.Pos()).Filename
+				if doneFile[name] {
+					continue
+				}
+				content, err := fileContent(res.Overlay, name)
+				if err != nil {
+					return nil, nil, err
+				}
+				out, what, err := forClauseStep(fc, content)
+				if err != nil {
+					skip["forclause:"+fc.fn.FullName()] = true
+					res.Log = append(res.Log, fmt.Sprintf("for clause calling %s left alone: %v", fc.fn.FullName(), err))
+					continue
+				}
+				res.Overlay[name] = out
+				res.Log = append(res.Log, what)
+				doneFile[name] = true
+				stepped = true
+				roundKeys = append(roundKeys, "forclause:"+fc.fn.FullName())
+			}
+			if stepped {
+				var err error
+				pkgs, err = loadPkgs(repo, res.Overlay)
+				if err != nil {
+					if err2 := rollback(err); err2 != nil {
+						return nil, nil, fmt.Errorf("after for clause normalisation: %v", err2)
+					}
+				}
+				continue
+			}
+		}
+		// method values of new methods are expanded first (one per file and round)
+		if mvs := newMethodValues(pkgs, helpers, skip); len(mvs) > 0 {
+			stepped := false
+			doneFile := map[string]bool{}
+			sort.Slice(mvs, func(i, j int) bool { return mvs[i].sel.Pos() > mvs[j].sel.Pos() })
+			for _, mv := range mvs {
+				name := mv.pkg.Fset.Position(mv.file.Pos()).Filename
+				if doneFile[name] {
+					continue
+				}
+				content, err := fileContent(res.Overlay, name)
+				if err != nil {
+					return nil, nil, err
+				}
+				out, what, err := methodValueStep(mv, content)
+				if err != nil {
+					skip["mval:"+mv.fn.FullName()] = true
+					res.Log = append(res.Log, fmt.Sprintf("method value of %s left alone: %v", mv.fn.FullName(), err))
+					continue
+				}
+				res.Overlay[name] = out
+				res.Log = append(res.Log, what)
+				doneFile[name] = true
+				stepped = true
+				roundKeys = append(roundKeys, "mval:"+mv.fn.FullName())
+			}
+			if stepped {
+				var err error
+				pkgs, err = loadPkgs(repo, res.Overlay)
+				if err != nil {
+					if err2 := rollback(err); err2 != nil {
+						return nil, nil, fmt.Errorf("after method value normalisation: %v", err2)
+					}
+				}
+				continue
+			}
 		}
 		// helpers referenced other than as the function of a call cannot be removed by inlining
 		// their calls, but their calls can still be inlined.
@@ -564,7 +675,6 @@ func isGoOrDefer(f *ast.File, call *ast.CallExpr) bool {
 	}
 	return false
 }
-
 
 // isPureBasicPredicate: the function takes only basic-typed parameters (numbers, strings, bools),
 // returns one bool, and its body consists of if / switch / return over expressions without calls
